@@ -79,7 +79,7 @@ CHECKS.update({
 
 def mount_stages(ctx, attr=None):
     cfg = "Mount.quick.cfg" if ctx.tier == "quick" else "Mount.thorough.cfg"
-    args = ["--names", "a,ab,b,f", "--depth", "3" if ctx.tier == "quick" else "4"]
+    args = ["--names", "a,ab,b,f", "--depth", "4"]
     if attr:
         args += ["--attr", attr]
     graph_stage(ctx, "mount", "MC_Mount.tla", cfg, "mount", ["mountmem"], args, workers=8, frontier=True)
